@@ -22,7 +22,7 @@ BUILD = os.path.join(VERIF, ".build")
 EVID = os.path.join(VERIF, "evidence")
 REPLAYS = os.path.join(VERIF, "replays")
 ALLOWED_AXIOMS = {"propext", "Classical.choice", "Quot.sound"}
-DRIVERS = ["drv_hist", "drv_layout", "drv_cmp", "drv_ovf", "drv_serde", "drv_traits"]
+DRIVERS = ["drv_hist", "drv_layout", "drv_cmp", "drv_ovf", "drv_serde", "drv_traits", "drv_wm", "drv_mon"]
 HARNESS_BINS = ["hist", "cmp", "ovf", "serdecorr", "uninit"]
 OFFLINE_ENV = {"CARGO_NET_OFFLINE": "true", "GOPROXY": "off", "PIP_NO_INDEX": "1"}
 
@@ -176,7 +176,9 @@ class Ctx:
         """Record a violation; writes the replay file and prints the VIOLATION line."""
         os.makedirs(REPLAYS, exist_ok=True)
         n = len(self.violations)
-        path = os.path.join(REPLAYS, "%s-%s-%d-%s%d.txt" % (self.prop, self.tier, self.seed, tag, n))
+        # checks of scratch copies (bin/seedtest run, --repo) may run concurrently: their replays carry the tree hash
+        suffix = "" if os.path.realpath(self.repo) == "/repo" else "-" + self.tree[:8]
+        path = os.path.join(REPLAYS, "%s-%s-%d%s-%s%d.txt" % (self.prop, self.tier, self.seed, suffix, tag, n))
         head = "property: %s\nkind: %s\nrepo_tree: %s\nseed: %d\ntier: %s\nfound_failing_input: %s\n---\n" % (
             self.prop, kind, self.tree, self.seed, self.tier, "yes" if found_input else "no")
         open(path, "w").write(head + body + ("\n" if not body.endswith("\n") else ""))
@@ -289,7 +291,7 @@ def lake_build(targets, timeout=1800):
     return rc == 0, out
 
 
-THEOREM_RE = re.compile(r"^\s*(?:private\s+|protected\s+)?(?:theorem|lemma)\s+([A-Za-z_][\w'.]*)", re.M)
+THEOREM_RE = re.compile(r"^\s*(?:private\s+|protected\s+)?(?:theorem|lemma)\s+([A-Za-z_][\w'.?!]*)", re.M)
 NS_RE = re.compile(r"^namespace\s+(\S+)", re.M)
 
 
@@ -308,7 +310,7 @@ def theorems_in(module):
         if m and ns and ns[-1] == m.group(1):
             ns.pop()
             continue
-        m = re.match(r"^\s*(?:private\s+|protected\s+)?(?:theorem|lemma)\s+([A-Za-z_][\w'.]*)", line)
+        m = re.match(r"^\s*(?:private\s+|protected\s+)?(?:theorem|lemma)\s+([A-Za-z_][\w'.?!]*)", line)
         if m:
             res.append((".".join(ns + [m.group(1)]), i))
     return res
@@ -552,3 +554,38 @@ def known_match(prop, key):
         if f.get("property") == prop and f.get("key") == key:
             return f
     return None
+
+
+def wm_orderings(facts):
+    """the three orderings the weak-memory search is parametrised by, from the translator's facts: the decrement in
+    drop_inner, the load / fence between the decrement and destruction (`none` if absent or if destruction does not come
+    after it), and the weakest load any uniqueness gate reaches"""
+    a = facts.get("atomics", {})
+    dec = a.get("decOrd") or "unknown"
+    f = a.get("fence")
+    fence = (f.get("ord") or "unknown") if isinstance(f, dict) else "none"
+    if a.get("dropSkeleton") != ["decGuard", "fence", "destroy"] and not (a.get("dropSkeleton") == ["decGuard", "destroy"] and fence == "none"):
+        fence = "none"
+    gate = "acquire"
+    for g in a.get("gates", []) or []:
+        for o in g.get("loads", []) or []:
+            if o not in ("acquire", "acqrel", "seqcst"):
+                gate = o
+    return dec, fence, gate
+
+
+def wm_search(ctx, facts):
+    """MODEL-side search (Lean, WM/Search.lean, exe drv_wm): enumerate the template family of small executions at the
+    orderings found in the source; every witness printed is a proved race (`Search.raceWitnesses_sound`: the execution is
+    Consistent, follows Protocol, and the two events are unordered by happens-before).  Returns (number of witnesses, text)."""
+    dec, fence, gate = wm_orderings(facts)
+    try:
+        p = subprocess.run([lean_exe("drv_wm"), dec, fence, gate], stdout=subprocess.PIPE, stderr=subprocess.STDOUT, text=True, timeout=300)
+    except Exception as e:
+        return None, "model-side search could not run: %s" % e
+    m = re.search(r"witnesses=(\d+)", p.stdout)
+    n = int(m.group(1)) if m else None
+    ctx.coverage["model_search"] = {"orderings": {"decOrd": dec, "fence": fence, "gateOrd": gate}, "witnesses": n,
+                                    "what": "template family P1-P3 (2 threads, every mo order and rf choice) of WM/Search.lean; emptiness is a test, not a theorem"}
+    head = "model-side search (drv_wm %s %s %s): " % (dec, fence, gate)
+    return n, head + p.stdout[:6000]
